@@ -138,7 +138,8 @@ theorem lf62_level_flat_core (dim : Nat → Nat) (e : Label → Nat) {n : Id} {i
     (hacc : ∀ op ∈ pre, ∃ id, op = TOp.access id)
     (h : t.WF) (hl : t.LWF) (hv : v.WF) (hs : RSim dim e g t v)
     (hr : Lr54LevelRun dim e n ids kdim pre t g v es t' g' v') :
-    ∃ ins : List (Ins Nat R), ins.map Ins.Pm = es.map (·.Pi) ∧ ins.map Ins.a' = es.map (·.a) ∧
+    ∃ ins : List (Ins Nat R), (∀ i ∈ ins, dim i.b' = dim i.a) ∧
+      ins.map Ins.Pm = es.map (·.Pi) ∧ ins.map Ins.a' = es.map (·.a) ∧
       (∀ i ∈ ins, i.b' = i.a' + 1) ∧ (∀ i ∈ ins.head?, i.plain ∈ v.bonds) ∧
       (∀ i ∈ ins, DependsOn (fun l => l = i.a' ∨ l = i.b') i.Pm) ∧
       (∀ i ∈ ins, v.next ≤ i.a') ∧ ins.Pairwise (fun x y => x.a' + 4 ≤ y.a') ∧
@@ -149,17 +150,17 @@ theorem lf62_level_flat_core (dim : Nat → Nat) (e : Label → Nat) {n : Id} {i
         ∀ σ, v'.value dim σ =
           netValue dim (lf62Erase v.bonds ins ++ ins.flatMap Ins.cut) (ins.map Ins.Pm ++ v.ids.map v.tens) σ) := by
   induction hr with
-  | nil t g v => exact ⟨[], rfl, rfl, by simp, by simp, by simp, by simp, by simp, by simp, by simp [lf62Mem], fun _ σ => by simp [lf62Erase, VNet.value]⟩
+  | nil t g v => exact ⟨[], by simp, rfl, rfl, by simp, by simp, by simp, by simp, by simp, by simp, by simp [lf62Mem], fun _ σ => by simp [lf62Erase, VNet.value]⟩
   | @cons t t0 t1 t2 t' g g0 g1 g2 g' v v0 v1 v2 v' c Pi rest hpre hid hdep hsp _ ih =>
     obtain ⟨hg0, hv0⟩ := lf62_access_run hpre hacc
     subst hg0
     subst hv0
     obtain ⟨_, _, w0, l0, vw0, s0, _, _⟩ := structural_history_preserves_value dim e h hl hv hs hpre
     obtain ⟨_, w2, l2, vw2, s2, vw1, _, _, _, _⟩ := truncate_node_value dim e w0 l0 vw0 s0 hid hdep hsp
-    obtain ⟨p, hp, hpab, hnone, hids, hbonds, htens, hnext, hlegs, hil, hends⟩ := lf62_ident_shape w0 l0 vw0 s0 hid
+    obtain ⟨p, hp, hpab, hnone, hids, hbonds, htens, hnext, hlegs, hil, hends, hdimp0⟩ := lf62_ident_shape w0 l0 vw0 s0 hid
     obtain ⟨_, _, w1, l1, _, s1, _, _⟩ := structural_history_preserves_value dim e w0 l0 vw0 s0 hid
     obtain ⟨O, I, hfac, hb2, hl2, hn2, hsl⟩ := lf62_split_shape dim e w1 (setTens_wf vw1 hdep) (s1.setTens _ Pi) hsp
-    obtain ⟨ins, e1, e2, e3, _, hPmr, hge, hmono, hmem, horigr, ihv⟩ := ih w2 l2 vw2 s2
+    obtain ⟨ins, hdimr, e1, e2, e3, _, hPmr, hge, hmono, hmem, horigr, ihv⟩ := ih w2 l2 vw2 s2
     have hi : ids.ident c ∉ v0.ids := fun hm => (s0.ids _).1 hm hnone
     have hfac' : ∀ τ, Pi τ = sumPairs dim [(v0.next + 2, v0.next + 3)] (fun ρ => O ρ * I ρ) τ := by
       intro τ
@@ -188,7 +189,11 @@ theorem lf62_level_flat_core (dim : Nat → Nat) (e : Label → Nat) {n : Id} {i
       rw [hn2]
       show v1.next + 2 = _
       rw [hnext]
-    refine ⟨lf62Ins v0 p Pi :: ins, by simp [lf62Ins, e1], by simp [lf62Ins, e2], ?_, ?_, hPm, ?_, ?_, ?_, ?_, ?_⟩
+    refine ⟨lf62Ins v0 p Pi :: ins, (by
+      intro i hi'
+      rcases List.mem_cons.1 hi' with rfl | hi'
+      · exact hdimp0
+      · exact hdimr i hi'), by simp [lf62Ins, e1], by simp [lf62Ins, e2], ?_, ?_, hPm, ?_, ?_, ?_, ?_, ?_⟩
     rotate_left 2
     · intro i hi'
       rcases List.mem_cons.1 hi' with rfl | hi'
